@@ -28,6 +28,8 @@ SPEC = {
         {"name": "silencer", "pkg": "./silencer", "search_cases": 6000, "quick_cases": 800, "only": ["mutes_eq_bruteforce", "edit_incompatible_expires_old_creates_new"]},
         # "inhibition rules … use this same meaning" (a missing label reads as the empty string, also for =~): C03's engine
         {"name": "inhibit", "pkg": "./inhibit", "search_cases": 8000, "quick_cases": 3000, "only": ["mutes_iff_spec"]},
+        # "routes … use this same meaning": a route holds with exactly its configured matchers (C07's engine)
+        {"name": "route", "pkg": "./route", "search_cases": 20000, "quick_cases": 2500, "only": ["route_key_spec", "accepts_newRoute", "match_iff_selects"]},
     ],
     "rule": "three case kinds from one seeded PRNG: rt (45 %: a list of 0-4 generated matchers - classic / UTF-8 / reserved-rune / empty names, "
             "values over a fixed rune pool incl. quotes, backslashes, LF, tabs, braces, commas, non-BMP, controls, escape look-alikes, all four operators, "
